@@ -3,23 +3,42 @@ CONFIG = dict(
     engine="pure + bubble-node",
     technique="Lean 4 theorems (key-wise merge algebra, refinement of every front map to the left fold of its write history by induction over all "
               "histories, guarded invariants, frame) over a hand-written model of SessionData / FrontSession / BackSession / ClientSessions.PushSession / "
-              "sys.pushsession / sys.querysession / Forward / ProcessForwardMsg + differential correspondence with the real objects (pure layer) and "
-              "the real single-process node (two fronts, two back services, real client connections, handler zoo running scripts of session operations)",
+              "CloneBackSession / sys.pushsession / sys.querysession / sys.kick / Forward / ProcessForwardMsg / app.defaultRoute / ClientSessions.RemoveSession as a QUEUED task "
+              "(a closed socket leaves the session in the table until the end of the front-end's turn; close handlers see the map as of then) + differential "
+              "correspondence with the real objects (pure layer) and the real single-process node (two fronts, two back services with a route rule, two without, "
+              "real client connections, handler zoo running scripts of session operations, a device that keeps a front-end busy so that a batch of back-end "
+              "messages meets a closed-but-not-yet-removed session)",
     level_text="Machine-checked proof in Lean 4, for every value type with an idempotent JSON normalisation, that in the model a push merges a "
                "session's NewData into the connection's map key by key (pushed keys take the normalised value, every other key persists; later pushes win; "
-               "over ALL histories the map of every connection is the left fold of the writes addressed to it and has unique keys), that the route rule and "
-               "the envelope of a forwarded message read the CURRENT merged map (instance named by the route key; bound uid, front name, connection id), that "
+               "over ALL histories the map of every connection is the left fold of the writes addressed to it and has unique keys; a push re-sends EVERY value the "
+               "session object ever set), that the registered route rule and the envelope of a forwarded message read the CURRENT merged map (instance named by "
+               "the route key; bound uid, front name, connection id) while a service type WITHOUT a rule is routed by app.defaultRoute = first Working member in "
+               "view order, independent of the session (so node states are irrelevant exactly for histories that only use ruled types: proved; a witness shows "
+               "they matter otherwise), that "
                "a query hands a back-end the whole normalised map (Get preferring what the handler set itself), that the dirty flag survives a query so that "
                "set/query/push delivers (defect D16, repaired), that pushing to a dead connection changes no map and querying it reports an error, and that "
-               "a statement / a whole handler run / a client request writes only the map of its own connection (frame); inside the stated guard the reserved "
-               "keys persist over all histories. The model is tied to the Go code on every run by executing both on generated op sequences (3+ connections x "
+               "a statement / a whole handler run / a client request writes only the map of its own connection (frame); that Kick / a closed socket only QUEUES "
+               "the removal: push and query do not look at the closed flag, a push that arrives in that window is merged and returned by a query, the close handlers "
+               "are handed the map as of the end of the turn, afterwards the connection is gone, no removal stays pending across operations, an answer to a closed "
+               "socket is lost; that a clone (CloneBackSession) addresses the same connection and carries the reported uid and nothing else (no un-pushed values); end to end over all guarded histories a query returns the fold of the writes; inside the stated guard the reserved "
+               "keys persist over all histories. Outside the guard three reachable bad outcomes are stated as theorems (non-string _ID kills forwarding; one "
+               "unrepresentable value blocks every later push of that session object / silently re-addresses querying sessions to front \"n\"). The model is tied to the Go code on every run by executing both on generated op sequences (3+ connections x "
                "2 fronts x 2 back services x kept/made back sessions, scalars, nested lists/maps, ints beyond 2^53, unicode keys, unrepresentable values, "
-               "malformed JSON) and the property predicate (an independent write-log bookkeeping in the driver) is evaluated on the implementation's own observations.",
+               "malformed JSON, Kick from front-local and back-end handlers with pushes/queries in the window, requests for the rule-less type under changing node states and member order) and the property predicate (an independent write-log bookkeeping in the driver) is evaluated on the implementation's own observations.",
     level_note="Trusted: Lean kernel, harness/driver line protocol and canonicalisation (maps sorted by key, connection ids as per-case ordinals, values as "
                "tokens raw~normalised with the normalised form computed by encoding/json in the harness), the handler zoo. encoding/json is abstracted as an "
                "idempotent `norm` (validated on every generated value). The theorems are about the model; the differential run ties it to the code on sampled "
-               "histories. Not covered: actor `remote` transport between services (bypassed by the bubble-node engine), concurrent use of one session object "
-               "from several goroutines, Kick. Outside the guard (handlers writing `_ServerId`/`_NetId`, a non-string `_ID` at forward time is modelled) the "
+               "histories. Push / query / forward are instantaneous in the model EXCEPT for the removal of a closed connection, which is queued to the end of the operation "
+               "(the one asynchronous window modelled); a push still in flight while the client's next message is forwarded and request timeouts "
+               "are not modelled. "
+               "`push_without_waiting_is_delivered_at_once`, `node_state_irrelevant_step`, `reach_iff_member`, `get_prefers_local`, `push_unrepresentable_noop`, "
+               "`pushed_then_queried_is_stable` restate definitions of the model: their content is the differential tie. Value fidelity beyond idempotence of `norm` "
+               "(ints -> float64, nesting) rests on the differential run only. Not covered: actor `remote` transport between services (bypassed by the bubble-node "
+               "engine), concurrent use of one session object from several goroutines, a custom kick handler (SetKickHandler), ResetBackSession (unused), "
+               "connection-id wrap-around, "
+               "FrontSession.FromJson / SessionData.Reset (unused API). CloneBackSession is modelled (`clone`). A BackSession whose ServerId names a cluster member that is not a front-end: the sys.* entry "
+               "there panics on the missing `sessions` component, the panic is recovered and answered as an error, so push and query report err at once as the model "
+               "says (reproduced on the real node; generated and compared). Outside the guard (handlers writing `_ServerId`/`_NetId`, a non-string `_ID` at forward time is modelled) the "
                "code type-asserts and panics inside a recovered task: exercised in a separate `u.` stream, recorded in the histogram, not compared.",
     lean_targets=["Cell2v.Props.C10", "modeld_c10"],
     driver="modeld_c10",
@@ -33,7 +52,14 @@ CONFIG = dict(
                        "next_request_follows_push", "write_events_are_sets_and_pushes", "handler_writes_only_its_connection",
                        "target_stable", "maps_have_unique_keys", "dead_statements_change_nothing", "reset_same_value_still_pushed",
                        "node_state_irrelevant", "reach_iff_member", "away_front_unreachable",
-                       "push_without_waiting_is_delivered_at_once", "session_keeps_its_connection"],
+                       "push_without_waiting_is_delivered_at_once", "session_keeps_its_connection",
+                       "ruled_op_ignores_default_route", "default_route_ignores_session", "default_route_first_working",
+                       "default_route_none_working", "default_route_reads_node_state", "forward_dropped_when_uid_not_string",
+                       "push_resends_everything_ever_set", "unrepresentable_pending_blocks_every_push",
+                       "unrepresentable_front_value_poisons_query", "query_after_any_history", "clone_carries_identity_only", "reserved_key_write_retargets_session",
+                       "kick_keeps_the_session", "kick_queues_removal", "push_query_ignore_closed_flag",
+                       "push_in_closing_window_is_merged", "close_handlers_see_end_of_turn_map",
+                       "queued_removals_run_at_turn_end", "no_removal_pending_between_turns", "answer_to_closed_socket_is_lost"],
     harness_pkg="./c10",
     mode="diff",
     reset_prefix="reset",
@@ -45,7 +71,10 @@ CONFIG = dict(
     },
     trivial=r"^(ok|closed|bad-op|nohandle|unguarded|n\d+|at=none resp=(err|none)|r=)?$",
     rule="op lines generated from one PRNG (VERIF_SEED): cases after `reset`; node cases (3 of 4): 2-4 connections on fronts gate-1/gate-2, most given a "
-         "chat instance by a front-local handler, then 15-45 operations: front-local and forwarded client requests/notifies whose handler runs a script of "
+         "chat instance by a front-local handler, then 15-45 operations: Kick (1 in 14: a front-local handler kicks its own connection and goes on setting/reading in the same turn; "
+         "a back-end handler of a forwarded request or a held session keeps the front-end busy, kicks, sets and pushes without waiting, then at most once waits for a push/query — "
+         "the batch meets the closed-but-not-yet-removed session; then the gone connection's next message and its holders), `clone/<h>` statements (CloneBackSession kept under a new handle, 1 in 8 back-end scripts; the clone acts later), sessions addressing a cluster member that is not a front-end, requests for the rule-less type `room` (1 in 5 forwarded "
+         "requests and after half of the view changes; members in two orders), every observation of an op that removed connections ends with what each close handler saw (`closed=`);  front-local and forwarded client requests/notifies whose handler runs a script of "
          "1-6 session statements (get/set/bind/id/push/query/json/keep over keys chatid, _ID, ascii/unicode/empty/blank keys and keys that merely look reserved ('_', '_x', '__', '_zone', '_id', '_NetId2', '_serverid', ...); values: scalars, nested lists/maps, "
          "ints beyond 2^53, float32, typed slices, invalid-UTF-8 and HTML strings, NaN/Inf; chatid mostly a live instance, sometimes unknown/non-string/empty; "
          "_ID sometimes not a string), scripts on kept and on directly made back sessions (live, closed, never-existing connections, unknown front), "
@@ -67,5 +96,8 @@ CONFIG = dict(
         "guard of the conditional theorems: handlers never Set the reserved keys _ServerId/_NetId and only set JSON-representable values; session keys are valid UTF-8",
         "a session object is used by one goroutine at a time (the service's own); fewer than 2^32 connections per front",
         "uids bound through a front-local Bind are valid UTF-8 (they travel in a protobuf string field)",
+        "messages one service sends to another are handled in the order they were sent (actor mailbox FIFO): a push not waited for precedes the handler's "
+        "answer; what a back-end sends in one turn to a busy front-end is handled as one batch before the tasks the front-end posts to itself meanwhile "
+        "(observed on every run in the single-process node; the `remote` transport is not exercised)",
     ],
 )
